@@ -840,7 +840,9 @@ def np_vstack(eng, st, args, kwargs):
         for b, o in reversed(list(zip(blocks[:-1], offs[:-1]))):
             r = ite(lt(i, add(o, b.shape[0])), b.at(sub(i, o), j), r)
         return r
-    yield new_ref(st, ArrV((total, w), at, blocks[0].dtype if all(b.dtype == blocks[0].dtype for b in blocks) else 'real')), st
+    res = ArrV((total, w), at, blocks[0].dtype if all(b.dtype == blocks[0].dtype for b in blocks) else 'real')
+    res.blocks = list(blocks)          # the stacked blocks, for models that state facts per block (np.unique)
+    yield new_ref(st, res), st
 
 
 @lib('numpy.concatenate', 'numpy.hstack')
@@ -995,8 +997,10 @@ def np_unique(eng, st, args, kwargs):
     if kwargs or len(args) != 1:
         raise OutOfSubset('np.unique with keywords')
     a = arr_of(eng, st, args[0])
+    blocks2d = []
     if a is not None and a.ndim == 2 and isinstance(a.shape[1], int):
         w = a.shape[1]          # np.unique flattens: cell t of the flattened array is a[t // w, t % w]
+        blocks2d = [(b, w) for b in (getattr(a, 'blocks', None) or [a]) if b.ndim == 2]
         a = ArrV((mul(a.shape[0], w),), lambda t, a=a, w=w: a.at(floordiv(t, w), mod(t, w)), a.dtype)
     if a is None or a.ndim != 1:
         raise OutOfSubset('np.unique of a non 1-D value')
@@ -1015,11 +1019,35 @@ def np_unique(eng, st, args, kwargs):
     cell = lambda t: to_z3(to_num(a.at(t)))
     st.assume(and_(0 <= k, k <= nz, z3.Implies(nz > 0, k > 0)))
     st.assume(z3.ForAll([i, j], z3.Implies(z3.And(0 <= i, i < j, j < k), u(i) < u(j)), patterns=[z3.MultiPattern(u(i), u(j))]))
-    st.assume(z3.ForAll([i], z3.Implies(z3.And(0 <= i, i < k), z3.And(0 <= src(i), src(i) < nz, u(i) == cell(src(i)))), patterns=[u(i)]))
-    st.assume(z3.ForAll([j], z3.Implies(z3.And(0 <= j, j < nz), z3.And(0 <= pos(j), pos(j) < k, u(pos(j)) == cell(j))), patterns=[pos(j)]))
-    # ground instances of the last fact at the first and the last input cell (nothing new; they give the solver the terms it needs)
-    for jj in (z3.IntVal(0), nz - 1):
-        st.assume(z3.Implies(nz > 0, z3.And(0 <= pos(jj), pos(jj) < k, u(pos(jj)) == cell(jj))))
+    if blocks2d:
+        # stacked 2-D blocks: "each output cell comes from an input cell and each input cell occurs in the output", stated per block and
+        # column so that it is found from a term B[r, c].  pos(src(i)) == i keeps the two facts from feeding each other new terms for ever;
+        # it is consistent: where column (B, c) holds the value u[i], src is such a row and strict monotonicity makes pos of it i; where it
+        # does not, src(i) is the out-of-range row -1 - i, on which pos is unconstrained.
+        r = z3.Int(fresh_name('r'))
+        origins, links = [], []
+        for b, w in blocks2d:
+            nb = to_z3(b.shape[0])
+            for c in range(w):
+                posb = z3.Function(fresh_name('uniq.pos%d' % c), z3.IntSort(), z3.IntSort())
+                srcb = z3.Function(fresh_name('uniq.src%d' % c), z3.IntSort(), z3.IntSort())
+                cellb = lambda t, b=b, c=c: to_z3(to_num(b.at(t, c)))
+                cr = cellb(r)
+                pats = [posb(r)]
+                if z3.is_app(cr) and cr.decl().kind() in (z3.Z3_OP_UNINTERPRETED, z3.Z3_OP_SELECT) and cr.num_args() > 0:
+                    pats.append(cr)
+                st.assume(z3.ForAll([r], z3.Implies(z3.And(0 <= r, r < nb), z3.And(0 <= posb(r), posb(r) < k, u(posb(r)) == cr)), patterns=pats))
+                for rr in (z3.IntVal(0), nb - 1):
+                    st.assume(z3.Implies(nb > 0, z3.And(0 <= posb(rr), posb(rr) < k, u(posb(rr)) == cellb(rr))))
+                origins.append(z3.And(0 <= srcb(i), srcb(i) < nb, u(i) == cellb(srcb(i))))
+                links.append(posb(srcb(i)) == i)
+        st.assume(z3.ForAll([i], z3.Implies(z3.And(0 <= i, i < k), z3.And(z3.Or(*origins), *links)), patterns=[u(i)]))
+    else:
+        st.assume(z3.ForAll([i], z3.Implies(z3.And(0 <= i, i < k), z3.And(0 <= src(i), src(i) < nz, u(i) == cell(src(i)))), patterns=[u(i)]))
+        st.assume(z3.ForAll([j], z3.Implies(z3.And(0 <= j, j < nz), z3.And(0 <= pos(j), pos(j) < k, u(pos(j)) == cell(j))), patterns=[pos(j)]))
+        # ground instances of the last fact at the first and the last input cell (nothing new; they give the solver the terms it needs)
+        for jj in (z3.IntVal(0), nz - 1):
+            st.assume(z3.Implies(nz > 0, z3.And(0 <= pos(jj), pos(jj) < k, u(pos(jj)) == cell(jj))))
     eng.trusted_facts.add('np.unique(a): strictly increasing array with the same set of values as a (library fact, trusted)')
     yield new_ref(st, ArrV((k,), lambda t, u=u: u(to_z3(t)), a.dtype)), st
 
